@@ -3,6 +3,7 @@ C15 — lemmas for the end-to-end theorem: a tree in normal form, saved and read
 process, is rebuilt by the start-up registration loop.
 -/
 import LimnoriaModel.C15.Lemmas
+import LimnoriaModel.C15.Lazy
 namespace C15
 open Py
 
@@ -606,5 +607,41 @@ theorem saveLoad_normal_aux (hh : HeaderOk Gen.Registry.confFileHeader)
             simp only [NetSpec.entries, List.mem_append, List.mem_map]
             right; exact ⟨cv, hcv, rfl⟩)
         exact ⟨hco cv hcv, h.rt (childName (netName B ns.name) cv.1, cv.2) hm, hget (childName (netName B ns.name) cv.1, cv.2) hm⟩
+
+/-! ### lazy re-reading -/
+
+
+theorem updKey_id {β : Type} (k : Str) (f : β → β) (l : List (Str × β))
+    (h : ∀ b, findKey k l = some b → f b = b) : updKey k f l = l := by
+  induction l with
+  | nil => rfl
+  | cons kv rest ih =>
+    obtain ⟨k', v⟩ := kv
+    simp only [updKey]
+    by_cases hk : keyEq k' k = true
+    · rw [if_pos hk, h v (by simp [findKey, hk])]
+    · rw [if_neg hk, ih (fun b hb => h b (by simp [findKey, hk, hb]))]
+
+theorem call_fresh_aux {α : Type} (C : Cls α) (B : Str) (s : LSt α) (w : Where) (h : s.isStale w = false) :
+    s.call C B w = (s, s.st.var.valueAt w) := by
+  unfold LSt.call
+  cases s.st.var.valueAt w with
+  | none => rfl
+  | some cur => simp [h]
+
+theorem call_reread_chan_aux {α : Type} (C : Cls α) (B : Str) (s : LSt α) (c : Str) (v : α)
+    (hnode : findKey c s.st.var.chans = some ⟨v, true⟩)
+    (hcache : cacheGet s.st.cache (childName B c) = some (C.str v)) (hrt : RT C v) :
+    (s.call C B (.chan c)).2 = some v ∧ (s.call C B (.chan c)).1.st = s.st := by
+  unfold LSt.call
+  simp only [Var.valueAt, hnode, Option.map_some]
+  by_cases hst : s.isStale (.chan c) = true
+  · simp only [hst, if_true, whereName, hcache, hrt v]
+    refine ⟨trivial, ?_⟩
+    simp only [LSt.assign, Var.assign]
+    have : updKey c (fun l : Leaf α => l.setV v false) s.st.var.chans = s.st.var.chans :=
+      updKey_id c _ _ (by intro b hb; rw [hnode] at hb; cases hb; rfl)
+    rw [this]
+  · simp [hst]
 
 end C15
